@@ -153,7 +153,7 @@ def gen_queries(rng, tpl, files, nq):
         xn, xt = gen_excludes(rng, files, pts)
         qs.append({"start": s, "end": e, "sort": sort, "bundle": bundle, "nferr": rng.random() < 0.3,
                    "filters": gen_filters(rng, tpl, files), "xnames": xn, "xtimes": xt,
-                   "only_path": rng.random() < 0.15, "kind": kind,
+                   "only_path": rng.random() < 0.15, "kind": kind, "excl_ctor": rng.random() < 0.4,
                    "as_str": rng.random() < 0.15 and all(x is None or 1700 < x.year < 2250 for x in (s, e))})
     return qs
 
@@ -204,10 +204,22 @@ def classify(tpl, what):
     return "other"
 
 
-def real_find(fs, ids, q, paths_of):
-    """runs the real find; returns ('ok', flat_or_bundles) or ('err', class)"""
+def excluded_fileset(fs, make, q, paths_of):
+    """the fileset with the exclusion of q in force: set through exclude_files()/exclude_times(), or —
+    q["excl_ctor"] — a fresh FileSet built with the constructor argument exclude=[names and (t0, t1) periods mixed]"""
+    if q.get("excl_ctor") and make is not None:
+        mixed = [paths_of[i] for i in q["xnames"]] + [tuple(p) for p in q["xtimes"]]
+        if len(mixed) > 1 and len(mixed) % 2 == 0:
+            mixed = mixed[::2] + mixed[1::2]          # interleave names and periods
+        return make(exclude=mixed)
     fs.exclude_files([paths_of[i] for i in q["xnames"]])
     fs.exclude_times(list(q["xtimes"]) or None)
+    return fs
+
+
+def real_find(fs, ids, q, paths_of, make=None):
+    """runs the real find; returns ('ok', flat_or_bundles) or ('err', class)"""
+    fs = excluded_fileset(fs, make, q, paths_of)
     a, b = q["start"], q["end"]
     if q.get("as_str"):        # the public API also takes "YYYY-MM-DD hh:mm:ss[.ffffff]" strings (to_datetime)
         a = a if a is None else a.isoformat(sep=" ")
@@ -350,10 +362,13 @@ def run_population(ck, rng, scratch, tpl, files, time_cov, queries, extra, use_m
             from fsspec.implementations.zip import ZipFileSystem
             zp = os.path.join(root, "tree.zip")
             ids = G.build_zip(zp, root, tpl, files)
-            fs = G.make_fileset(root, tpl, time_cov, fs=ZipFileSystem(zp))
+            zfs = ZipFileSystem(zp)
+            make = lambda **kw: G.make_fileset(root, tpl, time_cov, fs=zfs, **kw)
+            fs = make()
         else:
             ids = paths
-            fs = G.make_fileset(root, tpl, time_cov, spelling=spelling)
+            make = lambda **kw: G.make_fileset(root, tpl, time_cov, spelling=spelling, **kw)
+            fs = make()
         paths_of = {i: p for p, i in ids.items()}
         honour = G.honours(tpl, files)
         base_case = {"op": "find", "template": tpl.to_json(), "files": [f.to_json() for f in files],
@@ -402,7 +417,7 @@ def run_population(ck, rng, scratch, tpl, files, time_cov, queries, extra, use_m
                 ck.disagree(f"WellPlaced: model says {wp_model}, harness says {honour} on '{tpl.text()}' line '{lines[0]}' / '{lines[2 + k_] if len(lines) > 2 else ''}'", base_case)
         for k, q in enumerate(queries):
             case = dict(base_case, query=query_json(q))
-            kind, val = real_find(fs, ids, q, paths_of)
+            kind, val = real_find(fs, ids, q, paths_of, make)
             black_ok = G.black_prefix_free(files, q["filters"])
             nsel = 0
             if honour and not (kind == "err" and val == "overflow"):
